@@ -474,3 +474,81 @@ func CorpusLeaderLockDowngraded(o sink) {
 	r.o.Sample(fmt.Sprintf("%s: leader before the replayed vote: %s; after: %s; commits: %s", r.name, before, after, commitsStr(s)))
 	r.end()
 }
+
+// CorpusLeaderCertFromEarlierRoot: a committee-preserving root-chain update mid-height; the Byzantine validator leads four
+// views and only withholds and replays genuine certificates. (1) (10,0): X certified (QC_A), PRECOMMIT withheld.
+// (2) (10,1): Y certified (QC_B), PRECOMMIT withheld. Everybody is reset to root height 11. (3) (11,0): X is proposed
+// again; the PRECOMMIT message carries the PRE-update QC_A — same round number, right phase, earlier root height. It must
+// be rejected (a certificate justifying a live leader message is from the replica's own root height): a replica that
+// accepts it locks with rank (10,0) while it precommit-votes in (11,0); the COMMIT is shown to replica 3, which commits X.
+// (4) (11,1): Y proposed with HighQc = QC_B (10,1): the replicas locked at rank (10,0) unlock by LIVENESS and commit Y.
+func CorpusLeaderCertFromEarlierRoot(o sink) {
+	cfg := bftsim.Config{N: 4, Powers: []uint64{1, 1, 1, 1}, Byz: []int{0}, Root0: 10}
+	is0 := func(i int) bool { return i == 0 }
+	cfg.Salt = findSalt(cfg, map[bftsim.VR]func(int) bool{{Root: 10, Round: 0}: is0, {Root: 10, Round: 1}: is0, {Root: 11, Round: 0}: is0, {Root: 11, Round: 1}: is0})
+	r := newRun(o, "corpus/leader-cert-from-earlier-root-height", cfg)
+	r.sigSuffix = "leader-cert-from-earlier-root-height"
+	s := r.s
+	A := all(s)
+	hon := []int{1, 2, 3}
+	certify := func(hq *lib.QuorumCertificate, what string) { // a round in which the proposal is certified and the PRECOMMIT withheld
+		r.elect(A, nil)
+		r.byzPropose(0, hq, what)
+		s.ByzForgetLock(0)
+		r.deliverAll(nil)
+		r.phases(hon) // PROPOSE
+		r.phases(A)   // PROPOSE_VOTE
+		r.deliverAll(nil)
+	}
+	certify(nil, "fresh-X")
+	r.phase(0) // PRECOMMIT at the leader: QC_A exists
+	r.dropAll()
+	r.toElection(A)
+	certify(nil, "fresh-Y")
+	r.phase(0)
+	r.dropAll()
+	r.toElection(A)
+	qcA := s.CertWithProposal(s.FindCert(lib.Phase_PROPOSE_VOTE, 1, func(v bftsim.VR) bool { return v == bftsim.VR{Root: 10, Round: 0} }))
+	qcB := s.CertWithProposal(s.FindCert(lib.Phase_PROPOSE_VOTE, 2, func(v bftsim.VR) bool { return v == bftsim.VR{Root: 10, Round: 1} }))
+	if qcA == nil || qcB == nil {
+		r.o.Count("leader-cert-from-earlier-root:setup-failed")
+		r.end()
+		return
+	}
+	for _, i := range A {
+		r.reset(i, 11)
+	}
+	// (3) (11,0): X again, PRECOMMIT justified by the pre-update certificate
+	certify(qcA, "repropose-X-after-root-update")
+	r.phase(0) // PRECOMMIT
+	envs := s.Take(func(e *bftsim.Envelope) bool { return e.Kind == "PRECOMMIT" })
+	s.ByzSwapQC(0, envs, qcA)
+	r.log("byz 0 swaps the certificate of its PRECOMMIT message at (11,0) for the certificate formed at (10,0)")
+	r.o.Count("byz:precommit-certificate-from-earlier-root-height")
+	accepted := 0
+	for _, e := range envs {
+		if r.deliver(e) == "" && e.To != 0 {
+			accepted++
+		}
+	}
+	r.phases(hon) // PRECOMMIT (no-op)
+	r.phases(A)   // PRECOMMIT_VOTE
+	lock1 := s.State(1)
+	r.deliverAll(nil)
+	r.phase(0) // COMMIT at the leader
+	r.deliverAll(func(e *bftsim.Envelope) bool { return e.To == 3 })
+	r.dropAll()
+	r.toElectionOrCommit(hon)
+	live := liveOf(s, A)
+	r.toElection(live)
+	// (4) (11,1): Y justified by QC_B
+	r.elect(live, nil)
+	if s.Nodes[0].B.Phase == bft.Propose {
+		r.byzPropose(0, qcB, "propose-Y-with-pre-update-certificate")
+		s.ByzForgetLock(0)
+	}
+	r.deliverAll(nil)
+	r.runRound(live, 0)
+	r.o.Sample(fmt.Sprintf("%s: PRECOMMIT with the (10,0) certificate accepted by %d/3 honest replicas; replica 1 then: %s; commits: %s", r.name, accepted, lock1, commitsStr(s)))
+	r.end()
+}
